@@ -48,15 +48,22 @@ CFG = {
 
 
 @st.composite
-def step_strategy(draw, nd, nvdim, real, has_subs=False):
+def step_strategy(draw, nd, nvdim, real, has_subs=False, bystander=False):
     group = draw(st.sampled_from(["geometry", "geometry", "data", "data", "meta", "meta"]))
+    if bystander:
+        # writes to an object derived from the subject: values, validity, labels, mapping, unit
+        kind = draw(st.sampled_from(["array-assign", "array-inplace", "update", "array-partial", "valid-assign", "valid-inplace",
+                                     "valid-norm", "unit"] + (["norm-set"] if real else [])
+                                    + (["vdims", "vdims", "mapping", "mapping"] if nvdim > 1 else [])))
+        group = None
     # region-level writes cannot take a mesh's subregions along: generated for meshes without subregions only
-    kind = draw(st.sampled_from({
+    kind = kind if bystander else draw(st.sampled_from({
         "geometry": ["translate", "scale", "rot", "rot"] + ([] if has_subs else ["region-translate", "region-scale",
                                                                                   "region-scale"]),
         "data": ["array-assign", "array-inplace", "update", "array-partial", "valid-assign", "valid-inplace",
                  "valid-norm"] + (["norm-set"] if real else []),
-        "meta": ["subregions", "unit", "bc"] + ([] if has_subs else ["units", "tol"]) + (["vdims", "mapping"] if nvdim > 1 else []),
+        "meta": ["subregions", "unit", "bc"] + ([] if has_subs else ["units", "tol"]) + (["vdims", "mapping"] if nvdim > 1 else [])
+                + ([] if has_subs or nvdim > 1 else ["dims", "dims"]),
     }[group]))
     warm = draw(st.integers(0, 2)) > 0  # read the observables before this write (2/3 of the steps)
     if kind in ("array-assign", "array-inplace", "update", "array-partial"):
@@ -81,6 +88,8 @@ def step_strategy(draw, nd, nvdim, real, has_subs=False):
         return [kind, warm, draw(st.integers(0, 2**31)), draw(st.integers(0, 2))]
     if kind == "units":
         return [kind, warm, [draw(st.sampled_from(gen.UNIT_POOL)) for _ in range(nd)]]
+    if kind == "dims":
+        return [kind, warm, draw(st.integers(0, len(gen.DIM_POOLS) - 1)), draw(st.integers(0, 23))]
     if kind == "unit":
         return [kind, warm, draw(st.sampled_from(gen.FIELD_UNITS))]
     if kind == "vdims":
@@ -105,30 +114,29 @@ def aged_case(prop):
         if prop in ("C18", "C19", "C16", "C09", "C20") and draw(st.integers(0, 3)) > 0:
             g["n"] = [max(2, k) for k in g["n"]]
             lat = gen.lattice_of(g)  # keep corners, recompute nothing: n only changes the cell size
+        # structural choices come from one wide integer: Hypothesis correlates small draws ("derive" with
+        # "nvdim = 1"), arithmetic on a wide integer does not
+        mix = draw(st.integers(0, 2**40))
+        mix = ((mix + 0x1234567) * 0x9E3779B97F4A7C15) % 2**64 >> 8  # small draws -> well-spread bits
         nv = cfg.get("nvdim")
-        if nv == "ndim-or-1":
-            nvdim = draw(st.sampled_from([1, nd]))
-        elif nv == "3-or-1":
-            nvdim = draw(st.sampled_from([1, 3, 3]))
-        elif nv == "3":
-            nvdim = 3
-        elif nv == "ndim-or-1-or-3":
-            nvdim = draw(st.sampled_from([1, nd, 3]))
-        else:
-            nvdim = draw(st.sampled_from([1, 1, nd, nd, 2, 3]))  # scalar or fully mapped vector: rotate90 applies
+        opts = {"ndim-or-1": [1, nd, nd], "3-or-1": [1, 3, 3], "3": [3], "ndim-or-1-or-3": [1, nd, 3]}.get(
+            nv, [1, 1, nd, nd, 2, 3])  # scalar or fully mapped vector: rotate90 applies
+        nvdim = opts[(mix // 7) % len(opts)]
         dtype = "float" if cfg.get("real") else draw(st.sampled_from(["float", "float", "complex", "int"]))
         # region-level writes (mesh.region.translate / scale / units) apply to meshes without subregions only
         want_subs = cfg.get("subs") or draw(st.booleans())
         subs = draw(gen.index_boxes(g["n"], max_boxes=2, min_boxes=1)) if want_subs else []
-        script = draw(st.lists(step_strategy(nd, nvdim, dtype == "float", bool(subs)), min_size=1, max_size=5))
+        hows = ["neg", "mul", "real", "conjugate", "component", "diff", "laplace", "plane", "box", "pad", "resample",
+                "rot-copy", "norm", "orientation", "abs", "stack", "h5"]
+        derive_how = hows[(mix // 1013) % len(hows)] if (mix // 131) % 10 < 3 else None
+        script = draw(st.lists(step_strategy(nd, nvdim, dtype == "float", bool(subs), bystander=derive_how is not None),
+                               min_size=1, max_size=5))
         return {"prop": prop, "g": g, "subs": subs, "nvdim": nvdim, "vdims": draw(gen.vdims_strategy(nvdim)),
                 "perm": list(draw(st.permutations(range(max(nd, nvdim))))), "dtype": dtype,
                 "seed": draw(st.integers(0, 2**31)),
                 "mask": ["all"] if draw(st.booleans()) else draw(gen.mask_spec(nd)),
                 # the writes go to the object itself, or to an object derived from it (then the object must not change)
-                "derive": draw(st.sampled_from([None, None, None, "neg", "mul", "real", "conjugate", "component", "diff",
-                                                "laplace", "plane", "box", "pad", "resample", "rot-copy", "norm",
-                                                "orientation", "abs", "stack", "h5"])),
+                "derive": derive_how,
                 "unit": draw(st.sampled_from(gen.FIELD_UNITS)), "bc0": draw(st.integers(0, 7)),
                 "script": script, "obs_seed": draw(st.integers(0, 2**31)),
                 "final_warm": draw(st.booleans())}
@@ -254,6 +262,19 @@ def apply_step(f, step, case):
         if len(f.mesh.subregions) > 0 or CFG[case["prop"]].get("no_units"):
             return None  # region-level attribute writes do not reach the mesh's subregions (DESIGN section 6)
         f.mesh.region.units = list(step[2])
+    elif kind == "dims":
+        # renaming the axes through the region (scalar fields on meshes without subregions: nothing else refers
+        # to the axis names)
+        if len(f.mesh.subregions) > 0 or k > 1:
+            return None
+        import itertools
+        pool = gen.DIM_POOLS[step[2]]
+        perm = list(itertools.permutations(range(4)))[step[3]]
+        new = [pool[i] for i in perm[:nd]]
+        bc = f.mesh.bc
+        if bc not in ("", "neumann", "dirichlet"):
+            f.mesh.bc = ""  # periodic directions are named by axis: cleared before the axes are renamed
+        f.mesh.region.dims = new
     elif kind == "unit":
         f.unit = step[2]
     elif kind == "vdims":
@@ -610,7 +631,11 @@ def _c13(f, P):
     return {"mesh-translate": lambda: m.translate(P["vec"]), "region-translate": lambda: m.region.translate(P["vec"]),
             "mesh-scale": lambda: m.scale(P["fac"]),
             "region-scale": lambda: m.region.scale(P["fac"], reference_point=P["pts"][0]),
-            "source-after": lambda: m}
+            "source-after": lambda: m,
+            # the invariants themselves: cell * n == edges, array shape == (*n, nvdim), Boolean validity of shape n
+            "invariants": lambda: {"cell": np.asarray(m.cell), "n": np.asarray(m.n), "edges": np.asarray(m.region.edges),
+                                   "dV": m.dV, "shape": f.array.shape, "valid-shape": f.valid.shape,
+                                   "valid-dtype": str(f.valid.dtype), "pmin<pmax": bool(np.all(m.region.pmin < m.region.pmax))}}
 
 
 def _c13_mut(f, P):
